@@ -74,7 +74,7 @@ def cases(draw, tier):
         spec["weights"] = None if agg == "corrcoef" else draw(
             Q.weight_specs(N, scalar_ok=False, zero_ok=False))
     else:
-        spec["fact"] = draw(Q.fact_specs(N, dyadic=dyadic))
+        spec["fact"] = draw(Q.fact_specs(N, dyadic=dyadic, magnitudes=True))
         if bigcase and spec["fact"]["K"] is None and N:
             # several fact columns: per-column work multiplies the cell numbers
             K = draw(st.sampled_from([2, 3]))
@@ -222,6 +222,7 @@ def check(case, rec):
     cmp_m = numpy.ones(want_shape, dtype=bool)       # compare missingness here
     exp_v = numpy.zeros(want_shape, dtype=float)
     cmp_v = numpy.zeros(want_shape, dtype=bool)      # compare values here
+    tol_v = numpy.zeros(want_shape, dtype=float)     # extra per-cell tolerance (conditioning of the statistic)
     lo_v = numpy.full(want_shape, -numpy.inf)
     hi_v = numpy.full(want_shape, numpy.inf)
     flags = set()
@@ -326,6 +327,12 @@ def check(case, rec):
                         n = len(good)
                         exp_v[idx] = math.sqrt(var * n / (n - 1.0))
                         cmp_v[idx] = True
+                        # conditioning: a deviation is computed from a rounded mean, so a sound (two-pass)
+                        # implementation is off by about (eps * magnitude)^2 / sigma; a one-pass "sum of squares
+                        # minus mean squared" is off by eps * magnitude^2 / sigma and must NOT pass
+                        mag = max(abs(t) for t in xs)
+                        e_ = 2.3e-16 * mag
+                        tol_v[idx] = 1e-12 * mag + (200.0 * e_ * e_ / exp_v[idx] if exp_v[idx] > 0 else 0.0)
                 elif agg == "quantile":
                     if not m:
                         if weighted:
@@ -372,7 +379,12 @@ def check(case, rec):
     scale = max(1.0, float(numpy.abs(fvals).max()) if fvals.size else 1.0)
     tol = 1e-9 * (scale * scale if matrix and agg == "covariance" else scale)
     diff = numpy.abs(nv[sel] - exp_v[sel])
-    if (diff > tol + 1e-9 * numpy.abs(exp_v[sel])).any():
+    if agg == "stddev":
+        allowed = tol_v[sel] + 1e-9 * numpy.abs(exp_v[sel])
+    else:
+        allowed = tol + 1e-9 * numpy.abs(exp_v[sel])
+    if (diff > allowed).any():
+        diff = numpy.where(diff > allowed, diff, 0.0)
         i = int(numpy.argmax(diff))
         raise Violation("%s: a cell holds %r, the textbook statistic is %r" % (
             what, float(nv[sel][i]), float(exp_v[sel][i])), sig="xcube.%s value%s" % (agg, " (weighted)" if weighted else ""))
@@ -388,6 +400,8 @@ def check(case, rec):
             if not numpy.array_equal(sm, nm) or not numpy.allclose(sv[~nm], nv[~nm], rtol=1e-9, atol=tol):
                 raise Violation("%s: result changes when all weights are multiplied by %s" % (what, c),
                                 sig="weighted quantile not scale invariant")
+    if case["fact"].get("mode", "plain") != "plain":
+        rec.note("fact mode=" + case["fact"]["mode"])
     rec.note("agg=" + agg + ("/weighted" if weighted else ""), "nd=%d" % nd, "ignore=%s" % ignore,
              "fact=%s/%s/K=%s" % (case["fact"]["dtype"], case["fact"]["form"], K))
     for fl in flags:
